@@ -380,4 +380,28 @@ theorem geometric_partial_sums (B : Matrix (Fin n) (Fin n) K) (S x : Matrix (Fin
       _ = _ := by abel
 
 end
+/-! ### `stationary_coefficients`: the loop invariant -/
+
+section
+variable {K : Type} [CommRing K] {n k : ℕ}
+
+theorem coefState_spec (G Kg Pmat P0 c0 : M K) (hG : Dim G k n) (hK : Dim Kg n k) (hP : Dim Pmat n n)
+    (hP0 : Dim P0 n n) (j : ℕ) :
+    Dim (coefState G Kg Pmat P0 c0 j).1 n n ∧
+    toMat n n (coefState G Kg Pmat P0 c0 j).1 = toMat n n P0 * toMat n n Pmat ^ j ∧
+    (coefState G Kg Pmat P0 c0 j).2.map (toMat k k) =
+      toMat k k c0 :: (List.range j).map
+        (fun i => toMat k n G * (toMat n n P0 * toMat n n Pmat ^ i) * toMat n k Kg) := by
+  induction j with
+  | zero => exact ⟨hP0, by simp [coefState], by simp [coefState]⟩
+  | succ j ih =>
+    obtain ⟨d, e, el⟩ := ih
+    refine ⟨dim_mmul d hP, ?_, ?_⟩
+    · show toMat n n (mmul (coefState G Kg Pmat P0 c0 j).1 Pmat) = _
+      rw [toMat_mmul d hP, e, pow_succ, Matrix.mul_assoc]
+    · show ((coefState G Kg Pmat P0 c0 j).2 ++ [mmul (mmul G (coefState G Kg Pmat P0 c0 j).1) Kg]).map (toMat k k) = _
+      rw [List.map_append, el, List.range_succ, List.map_append]
+      simp [toMat_mmul (dim_mmul hG d) hK, toMat_mmul hG d, e]
+
+end
 end QE.C12
